@@ -875,10 +875,62 @@ def r310(ctx, R):
              bad and ('assigned from %s%s' % (
                  bad, ' (reviewed: %s)' % REVIEWED[a] if a in REVIEWED
                  else '')) or 'fresh', func=sites[0][0], node=sites[0][1])
-    R.count('R3.10', n_, 2)
+    R.count('R3.10', n_, 1)
+
+
+def r313(ctx, R):
+    """get_provider_ids_for_traits_and_aggs tells its caller "a filter left
+    nothing" (None) apart from "no filter was applied" (the empty set): the
+    caller starts from *all* providers with the resources when it gets the
+    empty set.  So after every step that narrows or replaces the set under
+    a filter, an empty result must leave with None before the set can be
+    returned."""
+    prog = ctx.prog
+    f = prog.func(RC + ':get_provider_ids_for_traits_and_aggs')
+    g = cfgmod.cfg_of(f)
+    rets = [r for r in own_nodes(f.node) if isinstance(r, ast.Return)
+            and isinstance(r.value, ast.Tuple) and len(r.value.elts) == 2]
+    finals = [r for r in rets if isinstance(r.value.elts[0], ast.Name)]
+    if not R.ob('R3.13', 'traits-and-aggs:result', len(finals) == 1,
+                'one return of (filtered set, forbidden set)',
+                [src(r) for r in rets][:4], func=f, nontrivial=False):
+        return
+    fin = finals[0]
+    var = fin.value.elts[0].id
+    guards = set()
+    for x in own_nodes(f.node):
+        if isinstance(x, ast.If) and x.body and isinstance(
+                x.body[-1], ast.Return) and isinstance(
+                    x.body[-1].value, ast.Tuple) and x.body[-1].value.elts \
+                and isinstance(x.body[-1].value.elts[0], ast.Constant) and \
+                x.body[-1].value.elts[0].value is None:
+            ls = C.lits(x.test, True, [])
+            if len(ls) == 1 and not ls[0][1] and isinstance(
+                    ls[0][0], ast.Name) and ls[0][0].id == var:
+                guards.add(x)
+    writes = []
+    for x in own_nodes(f.node):
+        if isinstance(x, ast.AugAssign) and isinstance(
+                x.target, ast.Name) and x.target.id == var:
+            writes.append(x)
+        elif isinstance(x, ast.Assign) and any(
+                isinstance(t, ast.Name) and t.id == var
+                for t in x.targets) and C.guarding_ifs(x, f.node):
+            writes.append(x)
+    bad = [w for w in writes if not g.must_pass(w, fin, guards,
+                                                normal_only=True)]
+    R.ob('R3.13', 'traits-and-aggs:empty-means-none',
+         bool(writes) and bool(guards) and not bad,
+         'after every filter step on the result set an empty set leaves '
+         'with None (the empty set means "no filter" to the caller, which '
+         'then starts from every provider)',
+         ['line %d: %s' % (w.lineno, src(w)[:50]) for w in bad] or
+         '%d filter steps, %d exits' % (len(writes), len(guards)), func=f)
+    R.count('R3.13', len(writes), 3)
 
 
 def run(ctx, R):
+    r313(ctx, R)
     r31(ctx, R)
     r32(ctx, R)
     r33(ctx, R)
